@@ -158,6 +158,54 @@ func (c *caseRun) endOracle(drained bool) {
 				return
 			}
 		}
+		// no spurious drop, decidable without a drain: a message addressed to this stream that never
+		// arrived although a LATER one did was dropped (FIFO), and every message accepted before it has
+		// arrived too, so the buffer level at that moment is known exactly: it must have been full
+		lastSent := 0
+		for _, a := range f.arrived {
+			if s := sentStep(a.msg); s > lastSent {
+				lastSent = s
+			}
+		}
+		for m, rec := range c.sent {
+			if !rec.allowed[f.sid] || rec.step >= lastSent {
+				continue
+			}
+			got := false
+			for _, a := range f.arrived {
+				if a.msg == m {
+					got = true
+				}
+			}
+			if got {
+				continue
+			}
+			if rec.kind == "bcast" {
+				copies := 0
+				for _, t := range c.tagsAt(f.sid, rec) {
+					if has(rec.tags, t) {
+						copies++
+					}
+				}
+				if copies != 1 && len(rec.tags) == 1 {
+					continue
+				}
+			} else {
+				first := true
+				for sid := range rec.allowed {
+					if sid < f.sid && w.fakes[sid-1].peer == f.peer {
+						first = false // an earlier stream of the peer may have taken it
+					}
+				}
+				if !first || count(rec.peers, f.peer) != 1 {
+					continue
+				}
+			}
+			if n := buffered(f, rec.step-1); n < cp {
+				c.violate("streampool.oracle.bounded", fmt.Sprintf("stream %d (queue size %d%s) dropped message %d with only %d messages buffered: it must buffer its configured number of messages and drop only beyond that", f.sid, cp, map[bool]string{true: " = the default for queueSize <= 0", false: ""}[f.capRaw <= 0], m, n))
+				return
+			}
+		}
 		// bounded buffer at every quiescent point
 		for t := 1; t <= last; t++ {
 			if n := buffered(f, t); n > cp {
@@ -171,7 +219,8 @@ func (c *caseRun) endOracle(drained bool) {
 	}
 	survivor := func(sid int) bool {
 		s := c.sh[sid]
-		return s != nil && s.closeStep == 0
+		f := w.fakes[sid-1]
+		return s != nil && s.closeStep == 0 && !f.closed && f.ended == "" && f.ctx.Err() == nil
 	}
 	arrivedCount := func(f *fake, m int) int {
 		n := 0
